@@ -8,6 +8,26 @@ INV = ["AmplificationBound", "TokensProveOnlyTheirAddress"]
 CONST = {"Factor": "3"}
 
 
+def apalache_inductive(c):
+    """unbounded step: the amplification bound is an inductive invariant (Apalache, symbolic)"""
+    import shutil, subprocess, tempfile, time
+    wd = tempfile.mkdtemp(prefix="apalache.", dir=c.work)
+    shutil.copy(c.spec("AmpInductive.tla"), wd)
+    t0 = time.time()
+    for args in (["--init=Init", "--length=0"], ["--init=IndInit", "--length=1"]):
+        try:
+            p = subprocess.run(["apalache-mc", "check", "--cinit=ConstInit", "--inv=IndInv"] + args + ["AmpInductive.tla"], cwd=wd,
+                               stdout=subprocess.PIPE, stderr=subprocess.STDOUT, text=True, timeout=600)
+        except subprocess.TimeoutExpired:
+            c.fail_machinery("apalache timed out on AmpInductive " + " ".join(args))
+        if "EXITCODE: OK" not in p.stdout:
+            c.fail_machinery("apalache did not prove AmpInductive %s:\n%s" % (" ".join(args), p.stdout[-2000:]))
+    shutil.rmtree(wd, ignore_errors=True)
+    c.parts.append({"step": "apalache", "module": "AmpInductive.tla", "what": "Init => IndInv; IndInv /\\ Next => IndInv' for all byte counts, datagrams 1..MaxDg (MaxDg symbolic in 1..65535)",
+                    "wall_s": round(time.time() - t0, 1), "exhaustive": True})
+    vlib.log("[C14] apalache: amplification bound is an inductive invariant (unbounded), %.1fs" % (time.time() - t0))
+
+
 def token_case(rng, seq):
     ops = []
     nid = 0
@@ -78,6 +98,7 @@ def run(replay=None):
         cases = [json.load(open(os.path.join(replay, "stimulus.json")))]
     else:
         c.model_check("AddressValidation_MC.tla", "AddressValidation_MC.cfg", label="reference server vs every arrival pattern")
+        apalache_inductive(c)
         cases = []
         for s in c.enumerate("Tokens_Env.tla", {"L": 4}):
             cases.append(token_case(c.rng, s))
